@@ -334,7 +334,15 @@ where
                     Ok(message) => message,
                     Err(err) => {
                         *this.close = true;
-                        return Poll::Ready(Some(WsMessage::Close(1002, err.to_string())));
+                        return Poll::Ready(Some(match this.protocol {
+                            Protocols::SubscriptionsTransportWS => WsMessage::Text(
+                                serde_json::to_string(&ServerMessage::ConnectionError {
+                                    payload: Error::new(err.to_string()),
+                                })
+                                .unwrap(),
+                            ),
+                            Protocols::GraphQLWS => WsMessage::Close(4400, err.to_string()),
+                        }));
                     }
                 };
 
